@@ -378,6 +378,20 @@ pub fn draw_plan(seed: u64, index: u64) -> Plan {
         max_cap: 400,
         ..Profile::default()
     };
+    // "wide twins": two plans per thousand run one beyond-2^16 memo scenario (65 600+ memo entries
+    // from a stuck source, then 900 free-running choices) and its twin under another hash key -
+    // candidate lists that are truncated or reordered only for huge memos show here
+    if index % 1000 == 500 || index % 1000 == 501 {
+        if let Some(spec) = crate::engine::spec_for("C02", crate::engine::Tier::Quick) {
+            let mut sc = crate::engine::wide_scenario(&spec, seed, index % 2);
+            sc.faults.clear();
+            sc.hash_key = rng.random();
+            let mut t = sc.clone();
+            t.hash_key = rng.random();
+            let policy = if index % 2 == 0 { Policy::Bursty } else { Policy::Sequential };
+            return Plan { tasks: vec![sc, t], placement: vec![vec![0], vec![1]], policy, sched_seed: rng.random(), schedule: None, twins: vec![(0, 1)], clock_jumps: vec![] };
+        }
+    }
     // one plan in 16 is a "long twins" plan: few tasks, thousands of opcodes each, so that the memo
     // grows past 256 entries (the BINGET candidate filter and other large-memo paths are exercised
     // under different hash keys)
